@@ -386,7 +386,12 @@ fn date_to_days(s: &str) -> Option<i64> {
 fn text_matches(cell: &Cell, text: Option<&str>) -> bool {
     match (cell, text) {
         (Cell::Null, None) => true,
-        (Cell::Null, Some(t)) => t.is_empty() || t == "null",
+        // strict: a NULL is an absent text cell only. (A lenient 'NULL also matches an empty
+        // text' let the greedy multiset match give the NULL row's partner to the '' row or
+        // the other way round, depending on the engine's row order: a flaky false alarm on
+        // results holding both a NULL and a '' group. CSV's NULL/'' ambiguity is removed
+        // on the Arrow side before the comparison instead.)
+        (Cell::Null, Some(_)) => false,
         (_, None) => false,
         (Cell::Int(i), Some(t)) => t.parse::<i128>().map(|v| v == *i).unwrap_or(false),
         (Cell::Float(f), Some(t)) => t.parse::<f64>().map(|v| (v == *f) || (v - f).abs() <= 1e-9 * f.abs().max(v.abs()) || (v.is_nan() && f.is_nan())).unwrap_or(false),
